@@ -352,6 +352,9 @@ func (m *QuestionModel) verifyChoiceMatch(answer Answer) error {
 	correctByIndex := answer.correctAnswerIndices()
 	generated := m.Question.RenderOutput()
 	outputs := generateAnserOutputs(m.AnswerChoices)
+	if err := m.verifyAnswerInRange(correctByIndex, len(outputs)); err != nil {
+		return err
+	}
 	for i, output := range outputs {
 		if correctByIndex[i] && generated != output {
 			return fmt.Errorf("%w (%s): answer %q does not match question: %q != %q", ErrWrongAnswer, m.Filename(), indexToLetter(i), strings.TrimSuffix(output, "\n"), strings.TrimSuffix(generated, "\n"))
@@ -359,6 +362,19 @@ func (m *QuestionModel) verifyChoiceMatch(answer Answer) error {
 		if !correctByIndex[i] && generated == output {
 			return fmt.Errorf("%w (%s): expected %q: answer %q matches question: %q == %q", ErrWrongAnswer, m.Filename(), answer.correctAnswers(), indexToLetter(i), strings.TrimSuffix(output, "\n"), strings.TrimSuffix(generated, "\n"))
 		}
+	}
+	return nil
+}
+
+// verifyAnswerInRange rejects answers that mark a choice that does not exist,
+// e.g. answer "e" for a question with only four choices.
+func (m *QuestionModel) verifyAnswerInRange(correctByIndex map[int]bool, choiceCount int) error {
+	last := -1
+	for i := range correctByIndex {
+		last = max(last, i)
+	}
+	if last >= choiceCount {
+		return fmt.Errorf("%w (%s): answer %q has no corresponding choice, found only %d choices", ErrWrongAnswer, m.Filename(), indexToLetter(last), choiceCount)
 	}
 	return nil
 }
@@ -378,6 +394,9 @@ func (m *QuestionModel) verifyTextMatch(answer Answer) error {
 func (m *QuestionModel) verifyParseError(answer Answer) error {
 	correctByIndex := answer.correctAnswerIndices()
 	parseErrors := generateParseErrors(m.AnswerChoices[0].(*txtarContent))
+	if err := m.verifyAnswerInRange(correctByIndex, len(parseErrors)); err != nil {
+		return err
+	}
 	for i, parseError := range parseErrors {
 		if correctByIndex[i] && !parseError {
 			return fmt.Errorf("%w: %s: answer %s should have parse error", ErrWrongAnswer, m.Filename(), indexToLetter(i))
@@ -392,6 +411,9 @@ func (m *QuestionModel) verifyParseError(answer Answer) error {
 func (m *QuestionModel) verifyNoParseError(answer Answer) error {
 	correctByIndex := answer.correctAnswerIndices()
 	parseErrors := generateParseErrors(m.AnswerChoices[0].(*txtarContent))
+	if err := m.verifyAnswerInRange(correctByIndex, len(parseErrors)); err != nil {
+		return err
+	}
 	for i, parseError := range parseErrors {
 		if correctByIndex[i] && parseError {
 			return fmt.Errorf("%w: %s: answer %s should not have parse error", ErrWrongAnswer, m.Filename(), indexToLetter(i))
